@@ -60,6 +60,10 @@ def generate(rng, tier, idx):
         return _generate_synthetic(rng, tier)
     w = gen_world(rng, n_models=(1, 5), n_wav=(5, 12), n_filters=(2, 3), n_ap=(2, 3), allow_gz=False, allow_subdir=False)
     w['ext_n'] = rng.choice([3, 3, 8, 40])
+    if rng.random() < 0.03:
+        # a grid with more models than any plausible internal block size (cube format keeps this cheap)
+        w.update(format=2, n_models=rng.choice([1100, 2100]), n_wav=6, asc_per_file=None, mixed=None, zero_band=None, gz=False, subdir=0)
+        w['flux_unit'] = 'mJy' if w['flux_unit'] not in ('mJy', 'Jy') else w['flux_unit']
     nf = len(w['filters'])
     nsrc = rng.randint(1, 4)
     sc = {'world': w,
